@@ -6,7 +6,7 @@ from . import envshim  # noqa: F401
 import random
 import numpy as np
 from .runner import Component
-from . import stubsim, twin
+from . import stubsim, twin, pubapi
 from .twin import canon
 
 PROP = "C08"
@@ -132,19 +132,17 @@ def build_grid(desc, rng):
                          attack_mapping={e: set(encs) for e in encs})
     # the smart simulation keeps its components in Python sets (iteration order = object ids, which
     # differ between two objects): fix the order so that both twins consume random numbers alike
-    for attr in ("_states", "_observers", "_dones"):
-        setattr(sim, attr, sorted(getattr(sim, attr), key=lambda c: type(c).__name__))
+    pubapi.fix_component_order(sim)
 
     def probe():
-        if not all(hasattr(a, "_health") for a in sim.agents.values()):
+        if not all(pubapi.pub(a, "health") is not None for a in sim.agents.values()):
             return []
         vit = []
         for a in sim.agents.values():
-            vit.append([a.position.tolist() if getattr(a, "_position", None) is not None else [],
-                        float(a.health), bool(a.active), getattr(a, "_ammo", None),
-                        getattr(a, "_orientation", None)])
-        cells = [sorted(sim.grid._internal[r, c].keys()) if sim.grid._internal[r, c] else []
-                 for r in range(rows) for c in range(cols)]
+            vit.append([a.position.tolist() if pubapi.pub(a, "position") is not None else [],
+                        float(a.health), bool(a.active), pubapi.pub(a, "ammo"),
+                        pubapi.pub(a, "orientation")])
+        cells = [pubapi.cell_ids(sim.grid, r, c) for r in range(rows) for c in range(cols)]
         return [vit, cells, dict(getattr(sim, "rewards", {}))]
     return MgrTwin(make_mgr(mk, sim), probe)
 
@@ -190,8 +188,10 @@ class OspTwin:
 
     def __init__(self, w, sim):
         self.w, self.sim = w, sim
-        self.agents = w._learning_agents
-        self.order = list(w._learning_agents)
+        # the adapter's players: the learning agents of the simulation, in its listing order
+        self.agents = {k: a for k, a in w.sim.agents.items()
+                       if hasattr(a, "action_space") and hasattr(a, "observation_space")}
+        self.order = list(self.agents)
 
     def reset(self):
         return self.w.reset()
@@ -209,7 +209,7 @@ class OspTwin:
         return list(self.order), ts.step_type == StepType.LAST
 
     def probe(self):
-        return [bool(self.w._should_reset), getattr(self.w, "_current_player", None),
+        return [bool(getattr(self.w, "_should_reset", False)), getattr(self.w, "_current_player", None),
                 sorted(self.w.sim.done_agents), self.sim.t, list(self.sim.pend)]
 
 
@@ -252,22 +252,19 @@ def build_example(desc, rng):
     ex, mk, seed = desc
     name, builder, mgrs, _ = gen_C02.EXAMPLES[ex]
     sim = builder(random.Random(seed))
-    for attr in ("_states", "_observers", "_dones"):          # see build_grid
-        if isinstance(getattr(sim, attr, None), set):
-            setattr(sim, attr, sorted(getattr(sim, attr), key=lambda c: type(c).__name__))
+    pubapi.fix_component_order(sim)          # see build_grid
 
     def probe():
         vit = []
         for a in sim.agents.values():
-            pos = getattr(a, "_position", getattr(a, "position", None))
+            pos = pubapi.pub(a, "position")
             vit.append([pos.tolist() if hasattr(pos, "tolist") else pos,
-                        getattr(a, "_health", None), bool(getattr(a, "active", True)),
-                        getattr(a, "_ammo", None), getattr(a, "_orientation", None)])
+                        pubapi.pub(a, "health"), bool(pubapi.pub(a, "active", True)),
+                        pubapi.pub(a, "ammo"), pubapi.pub(a, "orientation")])
         cells = []
         g = getattr(sim, "grid", None)
-        if g is not None and g._internal[0, 0] is not None:
-            cells = [sorted(g._internal[r, c].keys()) if g._internal[r, c] else []
-                     for r in range(g.rows) for c in range(g.cols)]
+        if g is not None and g[0, 0] is not None:
+            cells = [pubapi.cell_ids(g, r, c) for r in range(g.rows) for c in range(g.cols)]
         rew = getattr(sim, "rewards", getattr(sim, "reward", None))
         return [vit, cells, dict(rew) if isinstance(rew, dict) else rew]
     return MgrTwin(make_mgr(mk, sim), probe)
